@@ -177,6 +177,15 @@ fn judge_name(l: &Loaded, name: &str) -> (String, Vec<(String, String)>) {
     if got != again || got != other {
         bad.push(("resolution is not deterministic".to_string(), format!("`{}`: {:?} / {:?} / {:?}", name, got, again, other)));
     }
+    // lookup takes the first stored prefix that fits: two loads of one text that store their prefixes
+    // in different orders resolve names with two readings differently, whichever name is asked here
+    if l.a.registry.prefixes != l.b.registry.prefixes {
+        let at = l.a.registry.prefixes.iter().zip(l.b.registry.prefixes.iter()).position(|(x, y)| x != y).unwrap_or(0);
+        bad.push((
+            "resolution is not deterministic: two loads of the same text order their prefixes differently".to_string(),
+            format!("prefix #{} is {:?} in one load and {:?} in the other", at, l.a.registry.prefixes.get(at).map(|p| &p.0), l.b.registry.prefixes.get(at).map(|p| &p.0)),
+        ));
+    }
     let readings = l.dump.resolve(name);
     let outcome = match (&got, readings.is_empty()) {
         (None, true) => "denotes nothing".to_string(),
